@@ -15,6 +15,9 @@ ASSUMPTIONS = [
 ]
 
 
+SLICES = (slice(None), slice(1, None), slice(None, -1), slice(None, None, -1), slice(0, 2), slice(1, 3), slice(None, None, 2))
+
+
 def strip_ws(s):
     return ''.join(s.split())
 
@@ -91,6 +94,17 @@ def check_node(n, gkids, gtexts, gbelow_count, root, depth_bound, T):
     for i in range(len(got)):
         if ident(n[i], T) != ident(got[i], T):
             return ('index', str(got[i]), str(n[i]))
+        if got and ident(n[i - len(got)], T) != ident(got[i], T):
+            return ('index-negative', str(got[i]), str(n[i - len(got)]))
+    for sl in SLICES:
+        part = n[sl]
+        if not isinstance(part, list) or [ident(x, T) for x in part] != [ident(x, T) for x in got[sl]]:
+            return ('slice', [str(x) for x in got[sl]], [str(x) for x in part] if isinstance(part, list) else repr(part))
+        for x, w in zip(part, got[sl]):
+            if type(x) is not type(w):
+                return ('slice-type', type(w).__name__, type(x).__name__)
+            if isinstance(w, T['TexNode']) and (x.parent is None or x.parent.expr is not e):
+                return ('parent-slice', str(n)[:40], None if x.parent is None else str(x.parent)[:40])
     # ground truth: children are the generator's non-text children, in order
     gk = [(c['s'], gram.text_of(c['n'])) for c in gkids if c['n'][0] not in ('T', 'CM')]
     if [key_of(k) for k in kids] != gk:
